@@ -135,7 +135,7 @@ func init() {
 					c.Case(0, true, map[bool]string{true: "accepted", false: "refused"}[ok])
 				}})
 			// the same declarations written with blanks / line breaks inside the brackets
-			wsIn := []string{" ", "\t", "\n", "\r\n", " \r\n\t "}
+			wsIn := []string{" ", "\t", "\n", "\r\n", " \r\n\t ", " // 2 entries, [3..4] at most.\n", "//9\n", "\t// .. ]\r\n "}
 			sp = append(sp, h.Space{Name: "declarations-with-inner-whitespace", Count: product(4, 3, 4, 4, 4, len(wsIn)),
 				Describe: func(i uint64) interface{} {
 					d := unrank(i, 4, 3, 4, 4, 4, len(wsIn))
